@@ -1,0 +1,15 @@
+//go:build verif
+
+package dagsync
+
+import pubsub "github.com/libp2p/go-libp2p-pubsub"
+
+// VerifReceiverTopic returns the gossip pubsub topic of the Subscriber's
+// announcement receiver, or nil if the Subscriber has no receiver or the receiver
+// has no topic. Test-only accessor for the verification harness (build tag verif).
+func (s *Subscriber) VerifReceiverTopic() *pubsub.Topic {
+	if s.receiver == nil {
+		return nil
+	}
+	return s.receiver.VerifTopic()
+}
